@@ -217,3 +217,154 @@ Section CP.
     destruct (IH _ Hz) as [C D]. split; [|exact D]. rewrite C. unfold run1. simpl. destruct acc; simpl; [rewrite A, B, Hp|rewrite B]; lia.
   Qed.
 End CP.
+
+(* ---- maps commute with deletion / selection / re-insertion: the bookkeeping never looks inside a row *)
+Section Maps.
+  Variables A B : Type.
+  Variable f : A -> B.
+  Variable d : A.
+  Lemma delete_from_map (l : list A) I : forall k, map f (delete_from k l I) = delete_from k (map f l) I.
+  Proof. induction l as [|x t IH]; intro k; simpl; [reflexivity|]. destruct (mem k I); simpl; now rewrite IH. Qed.
+  Lemma delete_map (l : list A) I : map f (delete l I) = delete (map f l) I.
+  Proof. apply delete_from_map. Qed.
+  Lemma select_map (l : list A) I : map f (select d l I) = select (f d) (map f l) I.
+  Proof. unfold select. rewrite map_map. apply map_ext. intro i. symmetry. apply map_nth. Qed.
+  Lemma reinsert_from_map n : forall k (kept new : list A) I,
+    map f (reinsert_from d k n kept new I) = reinsert_from (f d) k n (map f kept) (map f new) I.
+  Proof.
+    induction n as [|n IH]; intros k kept new I; simpl; [reflexivity|].
+    destruct (index_of k I) as [j|]; simpl.
+    - rewrite IH. f_equal. symmetry. apply map_nth.
+    - destruct kept as [|x kept']; simpl; now rewrite IH.
+  Qed.
+  Lemma reinsert_map (kept new : list A) I : map f (reinsert d kept new I) = reinsert (f d) (map f kept) (map f new) I.
+  Proof. unfold reinsert. rewrite !map_length. apply reinsert_from_map. Qed.
+End Maps.
+
+Section DelGen.
+  Variable A : Type.
+  Lemma gdelete_from_app (l1 l2 : list A) I : forall k, delete_from k (l1 ++ l2) I = delete_from k l1 I ++ delete_from (k + length l1) l2 I.
+  Proof.
+    induction l1 as [|x t IH]; intro k; simpl; [now rewrite Nat.add_0_r|].
+    rewrite IH. replace (S k + length t)%nat with (k + S (length t))%nat by lia. destruct (mem k I); reflexivity.
+  Qed.
+  Lemma gdelete_from_none (l : list A) I : forall k, (forall j, (k <= j < k + length l)%nat -> mem j I = false) -> delete_from k l I = l.
+  Proof.
+    induction l as [|x t IH]; intros k H; simpl; [reflexivity|]. rewrite (H k) by (simpl; lia). f_equal. apply IH. intros j Hj. apply H. simpl. lia.
+  Qed.
+  Lemma gdelete_from_all (l : list A) I : forall k, (forall j, (k <= j < k + length l)%nat -> mem j I = true) -> delete_from k l I = [].
+  Proof.
+    induction l as [|x t IH]; intros k H; simpl; [reflexivity|]. rewrite (H k) by (simpl; lia). apply IH. intros j Hj. apply H. simpl. lia.
+  Qed.
+  Lemma gmem_seq k a n : mem k (seq a n) = ((a <=? k) && (k <? a + n))%nat.
+  Proof.
+    revert a. induction n as [|n IH]; intro a.
+    - simpl. apply Bool.eq_true_iff_eq. rewrite andb_true_iff, Nat.leb_le, Nat.ltb_lt. split; [discriminate|lia].
+    - cbn [seq]. unfold mem in *. cbn [existsb]. rewrite IH. apply Bool.eq_true_iff_eq.
+      rewrite orb_true_iff, !andb_true_iff, Nat.eqb_eq, !Nat.leb_le, !Nat.ltb_lt. lia.
+  Qed.
+  Lemma gdelete_appended (L new : list A) : delete (L ++ new) (seq (length L) (length new)) = L.
+  Proof.
+    unfold delete. rewrite gdelete_from_app.
+    rewrite (gdelete_from_none L) by (intros j Hj; rewrite gmem_seq; apply andb_false_iff; left; apply Nat.leb_gt; lia).
+    rewrite (gdelete_from_all new) by (intros j Hj; rewrite gmem_seq; apply andb_true_iff; split; [apply Nat.leb_le|apply Nat.ltb_lt]; lia).
+    apply app_nil_r.
+  Qed.
+  Lemma gdelete_nil (l : list A) : delete l [] = l.
+  Proof. unfold delete. apply gdelete_from_none. reflexivity. Qed.
+End DelGen.
+
+Section General.
+  Variables P O : Type.
+  Variable dP : P. Variable dO : O.
+  Notation row := (P * O)%type.
+  Notation cstate := (cstate P O).
+  Notation act := (act P O).
+
+  Definition is_move (a : act) : Prop := exists f, a = Move f /\ forall rs, length (f rs) = length rs.
+  Definition is_insert (a : act) : Prop := exists new, a = Insert new.
+
+  (* a trial the shipped bookkeeping can undo: displacements anywhere, at most ONE deletion batch (one index frame), and no insertion before it.
+     Covers every elementary move, composite displacement / exchange moves, and plain composites d + e, e + d, d + e + c ... with one exchange part *)
+  Definition undoable (s : cstate) (acts : list act) : Prop :=
+    exists pre del post, acts = pre ++ del ++ post /\ Forall is_move pre /\ Forall (fun a => is_move a \/ is_insert a) post /\
+      (del = [] \/ exists I dp, del = [Delete I dp] /\ NoDup I /\ forall i, In i I -> (i < length (rows s))%nat).
+
+  (* invariant of the tail (moves and insertions) relative to the state u it started from *)
+  Definition TailInv (u t : cstate) : Prop :=
+    exists extra : list O, map snd (rows t) = map snd (rows u) ++ extra /\ added t = seq (length (rows u)) (length extra) /\
+      deleted t = deleted u /\ deleted_rows t = deleted_rows u /\ last_pos t = last_pos u /\ nexch t = nexch u.
+
+  Lemma tail_inv (u : cstate) acts : forall t, TailInv u t -> Forall (fun a => is_move a \/ is_insert a) acts -> TailInv u (apply_trial dP dO acts t).
+  Proof.
+    induction acts as [|a acts IH]; intros t Ht F; [exact Ht|]. inversion F as [|? ? Fa F']; subst.
+    unfold apply_trial. cbn [fold_left]. apply IH; [|exact F']. destruct Ht as (ex & H1 & H2 & H3 & H4 & H5 & H6).
+    destruct Fa as [[f [-> Hf]]|[new ->]].
+    - exists ex. cbn [apply_act rows added deleted deleted_rows last_pos nexch]. repeat split; try assumption.
+      rewrite (set_pos_others P O) by apply Hf. exact H1.
+    - exists (ex ++ map snd new). cbn [apply_act rows added deleted deleted_rows last_pos nexch]. repeat split; try assumption.
+      + rewrite map_app, app_assoc. f_equal. exact H1.
+      + rewrite H2. assert (length (rows t) = length (rows u) + length ex)%nat as L.
+        { transitivity (length (map snd (rows t))); [symmetry; apply map_length|]. transitivity (length (map snd (rows u) ++ ex)); [f_equal; exact H1|]. rewrite app_length, map_length. reflexivity. }
+        rewrite L, app_length, map_length. symmetry. apply seq_app.
+  Qed.
+
+  Theorem reject_restores_general (s : cstate) acts : Sync s -> undoable s acts ->
+    let t := apply_trial dP dO acts s in
+    rows (revert dP dO t) = rows s /\ Sync (revert dP dO t) /\ nexch (revert dP dO t) = nexch s.
+  Proof.
+    intros (L & A & D & R & Pd) (pre & del & post & -> & Fpre & Fpost & Hdel) t.
+    destruct (move_only P O dP dO pre s Fpre) as (Ho & Hl & Ha & Hd & Hr & Hp & _ & Hn).
+    set (t1 := apply_trial dP dO pre s) in *.
+    set (u := apply_trial dP dO del t1).
+    assert (t = apply_trial dP dO post u) as Et by (unfold t, u, t1, apply_trial; now rewrite !fold_left_app).
+    assert (TailInv u u) as Hu.
+    { exists []. rewrite app_nil_r. repeat split; try reflexivity. cbn [length seq].
+      destruct Hdel as [->|(I & dp & -> & _)]; unfold u, apply_trial; cbn [fold_left apply_act added]; rewrite Ha; exact A. }
+    pose proof (tail_inv u post u Hu Fpost) as (ex & T1 & T2 & T3 & T4 & T5 & T6). rewrite <- Et in T1, T2, T3, T4, T5, T6.
+    assert (map snd (revert_rows dP dO t) = map snd (rows s)) as Key.
+    { unfold revert_rows. rewrite guarded_delete. unfold Context.drow, Context.row in *.
+      assert (@map (P * O) O snd (@delete (P * O) (rows t) (added t)) = @map (P * O) O snd (rows u)) as K1.
+      { rewrite delete_map. unfold Context.row. rewrite T1, T2. rewrite <- (map_length snd (rows u)). apply gdelete_appended. }
+      destruct Hdel as [->|(I & dp & -> & ND & Rg)].
+      - assert (u = t1) as -> by reflexivity. rewrite T3, Hd, D. rewrite K1. exact Ho.
+      - unfold u, apply_trial in T3, T4, K1. cbn [fold_left apply_act deleted deleted_rows rows] in T3, T4, K1.
+        rewrite T3, T4, Hd, Hr, D, R. cbn [app].
+        destruct I as [|i I'].
+        + rewrite K1. rewrite gdelete_nil. exact Ho.
+        + rewrite (reinsert_map row O snd (dP, dO)). rewrite K1, delete_map, (select_map row O snd (dP, dO)). cbn [snd]. unfold Context.row in *. rewrite !Ho.
+          apply (reinsert_delete_l O dO (map snd (rows s)) (i :: I') ND). intros j Hj. rewrite map_length. now apply Rg. }
+    assert (last_pos t = map fst (rows s)) as Lp.
+    { rewrite T5. destruct Hdel as [->|(I & dp & -> & _)]; unfold u, apply_trial; cbn [fold_left apply_act last_pos]; rewrite Hp; exact L. }
+    assert (rows (revert dP dO t) = rows s) as E.
+    { unfold revert. cbn [rows]. rewrite Lp. rewrite (set_pos_ext P O (map fst (rows s)) (revert_rows dP dO t) (rows s) Key). apply set_pos_self. }
+    split; [exact E|]. split.
+    - apply revert_sync. rewrite E. exact Lp.
+    - unfold revert. cbn [nexch]. rewrite T6. destruct Hdel as [->|(I & dp & -> & _)]; unfold u, apply_trial; cbn [fold_left apply_act nexch]; exact Hn.
+  Qed.
+
+  (* the three elementary forms are instances *)
+  Lemma admissible_undoable (s : cstate) acts : admissible P O s acts -> undoable s acts.
+  Proof.
+    intros [F|[[news ->]|(Ix & dp & -> & ND & Rg)]].
+    - exists acts, [], []. rewrite !app_nil_r. repeat split; [exact F|constructor|now left].
+    - exists [], [], (map Insert news). repeat split; [constructor| |now left].
+      apply Forall_forall. intros a Ha. apply in_map_iff in Ha. destruct Ha as [n [<- _]]. right. now exists n.
+    - exists [], [Delete Ix dp], []. repeat split; [constructor|constructor|]. right. exists Ix, dp. repeat split; assumption.
+  Qed.
+
+  (* every position of any accept / reject history of undoable trials *)
+  Fixpoint und_run (hist : list (list act * bool)) (s : cstate) : Prop :=
+    match hist with [] => True | tr :: h => undoable s (fst tr) /\ und_run h (run1 P O dP dO s tr) end.
+  Theorem history_restores_general hist : forall s, Sync s -> und_run hist s ->
+    rejected_restored P O dP dO hist s /\ Sync (fold_left (run1 P O dP dO) hist s).
+  Proof.
+    induction hist as [|[acts acc] h IH]; intros s Hs Ha; simpl; [split; [exact I|exact Hs]|].
+    destruct Ha as [A1 A2]. simpl in A1.
+    destruct (reject_restores_general s acts Hs A1) as (B1 & B2 & B3).
+    assert (Sync (run1 P O dP dO s (acts, acc))) as Hn.
+    { unfold run1. simpl. destruct acc; [apply accept_syncs|exact B2]. }
+    destruct (IH _ Hn A2) as [R S']. split; [|exact S']. split; [|exact R].
+    simpl. intro E. subst acc. unfold run1. simpl. split; assumption.
+  Qed.
+End General.
